@@ -76,6 +76,23 @@ def lattice(k):
     return out
 
 
+def point(**dev):
+    c = list(BASE)
+    for k, v in dev.items():
+        assert v in dict(AXES)[k], (k, v)
+        c[NAMES.index(k)] = v
+    return tuple(c)
+
+
+# two corners of the lattice added to the k<=1 set for the packaged (eye-based) routines: the largest and the
+# smallest received voltages the axes allow (the estimators must not depend on the unit of the signal)
+CORNERS = [
+    point(launch=10.0, RL=1000.0),                                   # ~10 V on-level
+    point(launch=10.0, RL=1000.0, ER=40.0, bwf=2.0),
+    point(launch=-20.0, loss=3.0, r=0.5, layout='2pol', chan='fiber+'),   # ~6 uV on-level, next to the 0.5 uV dark offset
+]
+
+
 def ndev(cfg):
     return sum(1 for a, b in zip(cfg, BASE) if a != b)
 
@@ -285,11 +302,11 @@ def ref_ppm_slots(data, M):
 
 
 def ppm_case(case):
-    cfg, M, data, seed = case
+    cfg, M, which, data, seed = case
     from opticomlib import ppm
     from opticomlib.typing import binary_sequence
     dbits = bits_of(data)
-    tag = f'cfg={dict(zip(NAMES, cfg))} M={M} data={data} seed={seed}'
+    tag = f'cfg={dict(zip(NAMES, cfg))} M={M} data({which})={data} seed={seed}'
     viol = []
     slots = ppm.PPM_ENCODER(binary_sequence(dbits.copy()), M)
     sl = np.asarray(slots.data).astype(np.uint8)
@@ -309,7 +326,7 @@ def ppm_case(case):
         d = np.asarray(rx.data).astype(np.uint8)
         obs.append(d.tobytes())
         if d.size != dbits.size or not np.array_equal(d, dbits):
-            viol.append((f'ppm.dsp:{decision}:bits', f'{tag}: ppm.DSP({decision}) returned {"".join(map(str, d))}'))
+            viol.append((f'ppm.dsp:{decision}:bits:{which}-data', f'{tag}: ppm.DSP({decision}) returned {"".join(map(str, d))}'))
         else:
             nber += check_counter(ppm.BER_analizer, 'ppm', dbits, rx, viol, tag + f' decision={decision}')
     return res(viol=viol, obs=tuple(obs), nontrivial=(cfg, M, data), stats={'ppm_runs': 1, 'ber_calls': nber})
@@ -376,18 +393,19 @@ def run(ctx):
     # --- part 3: ook.DSP
     seeds = (0, 1) if quick else (0, 1, 2)
     ook_words = [prbs7(32), seeded(32, seed, 32), prbs7(64), seeded(64, seed, 64), prbs7(127), seeded(127, seed, 127)]
-    ook_cfgs = lat1 if quick else lattice(2)
+    ook_cfgs = (lat1 if quick else lattice(2)) + CORNERS[1:] + ([CORNERS[0]] if quick else [])
+    ctx.space('config.dsp', len(ook_cfgs))
     cases = [(c, w, s) for c in ook_cfgs for w in ook_words for s in seeds]
     ctx.pmap('ook.dsp', ook_case, cases, horizon=120)
     print(f'[C03] ook.dsp done in {time.time()-t0:.1f}s', flush=True); t0 = time.time()
 
     # --- part 4: ppm.DSP
     cases = []
-    for c in lat1:
+    for c in lat1 + CORNERS:
         for M in (2, 4, 8, 16):
             for which in ('ramp', 'prbs', 'seeded'):
                 for s in seeds:
-                    cases.append((c, M, ppm_data(M, which, seed), s))
+                    cases.append((c, M, which, ppm_data(M, which, seed), s))
     ctx.pmap('ppm.dsp', ppm_case, cases, horizon=120)
     print(f'[C03] ppm.dsp done in {time.time()-t0:.1f}s', flush=True); t0 = time.time()
 
